@@ -19,6 +19,30 @@ for op in range(24):
         elif op in (12, 13): seeds["text"].append(bytes([op]) + b"b" + FS + b(t)); seeds["text"].append(bytes([op]) + FS + b(t))
         elif op == 14: seeds["text"].append(bytes([op]) + b"b" + FS + b"XX" + FS + b(t)); seeds["text"].append(bytes([op]) + b"a" + FS + b"aa" + FS + b(t))
         else: seeds["text"].append(bytes([op]) + b(t))
+# integers at and next to INT_MIN, INT_MAX, 2^31, 2^32, 2^63 (and scaled mantissas reaching them through the exponent), in every accepted
+# notation: plain, with exponent e0 / e+0 / E00 / e1, with a trailing decimal part
+def boundary_numbers():
+    vals = []
+    for c in (2**31, -2**31, 2**32, 2**63, -2**63, 2**15, 2**16):
+        for d in (-2, -1, 0, 1, 2): vals.append(c + d)
+    out = []
+    for v in vals:
+        t = str(v)
+        out += [t, t + "e0", t + "e+0", t + "e00", t + "E0", t + "E00", t + ".0", t + ".", t + ".0e0", t + "0e-1", "0" + t if v >= 0 else "-0" + t[1:]]
+        if v % 10 == 0: out += [str(v // 10) + "e1", str(v // 10) + "e+01"]
+    # mantissa x 10^k crossing the int bounds
+    out += ["214748364e1", "214748365e1", "-214748364e1", "-214748365e1", "2147483647e00000", "2147483648e0000000000", "21474837e2", "3e9", "2e9", "-3e9", "1e10", "1e18", "1e19", "1e20", "0e99999", "00000000001e9",
+            "4294967296e0", "4294967295e0", "9223372036854775808e0", "9223372036854775807e0", "-9223372036854775809e0", "2.147483648e9", "2.147483647e9", "-2.147483649e9", "0.2147483648e10"]
+    return out
+bnums = boundary_numbers()
+for i, t in enumerate(bnums):
+    for sci, ch in ((0, "e"), (1, "E"), (3, "d"), (2, ".")):       # in.chr("eE.d-"): byte < 10 -> set[b % 5]
+        u = t.replace("E", "e")
+        if ("." in u and ch == ".") or (sci and (i + sci) % 3): continue
+        seeds["text"].append(bytes([5, sci]) + b(u.replace("e", ch)))
+    if i % 4 and not ("e" in t and t.startswith("2147483648")): continue
+    seeds["text"].append(bytes([3, 0, 0]) + b(t)); seeds["text"].append(bytes([4, 0, 0]) + b(t)); seeds["text"].append(bytes([4, 0, 1]) + b(t))
+    seeds["text"].append(bytes([6]) + b(t)); seeds["text"].append(bytes([15]) + b(t)); seeds["text"].append(bytes([16]) + b(" " + t + " "))
 toks = ["a b  c", ",a,,b,", "a,b;c", "", ",,,", "f(a,b),g(c)", "((a)", "a::b::c::", "::", "x", " \t\n", "a(b,c(d,e)),f", ")("]
 for op in range(32):
     for t in toks:
@@ -57,6 +81,12 @@ for sepb in (0, 1, 2):
         seeds["options"].append(bytes([5, sepb]) + b"v" + FS + b(v))
 for pat in ["*", "a*", "*a", "a*b", "ab", "", "**", "a**b", "*a*"]:
     seeds["options"].append(bytes([6]) + b(pat) + FS + b"a\nab\nabab\nba\nb\n\naab")
+for i in range(0, len(bnums), 6):
+    chunk = bnums[i:i + 6]
+    seeds["options"].append(bytes([20]) + b"a" + FS + b("a=" + chunk[0] + "\nx.y=" + chunk[1 % len(chunk)] + "\na_1=" + chunk[2 % len(chunk)]))
+    seeds["options"].append(bytes([5, 0]) + b"v" + FS + b(",".join(chunk)))
+for t in bnums[::7]:
+    seeds["formula"].append(b(t)); seeds["formula"].append(b("1+" + t)); seeds["interval"].append(b("[" + t + ";" + t + "]"))
 paths = ["/a/b/c.txt", "c.txt", "noext", "/a/b/", "a.b/c", "", ".", "/", "..", "a\\b\\c.d", "x.tar.gz", "/.hidden"]
 for op in range(16):
     for t in paths:
@@ -70,6 +100,29 @@ for op in (0, 1, 4, 5, 6, 7, 13, 21, 2, 3):
         if not op & 4 and not op & 8: pre += b";" + FS
         seeds["table"].append(pre + bytes([0, 9, 2, 3, 36, 5, 14, 7]) + FS + b(t))
         seeds["table"].append(pre + FS + b(t))
+# edit sequences that continue after a rejected edit (bytes >= 0x80: named / invalid edits, see t_table): op = byte % 8, k = byte / 8 % 8, v = bit 6
+def eb(op, k, v=0): return 128 + 64 * v + 8 * k + op
+import random
+rnd = random.Random(16)
+named = ["a\tb\nr1\t1\t2\nr2\t3\t4\n", "a\tb\nr0\t1\t2\nr1\t3\t4\nr2\t5\t6\n", "r0\t1\t2\nr1\t3\t4\n", "c0\tc1\tc2\nr0\t1\t2\t3\n", "c0\tc1\n1\t2\n3\t4\n", "1\t2\n3\t4\n", "c0\n", "", "c0\tc1\nr0\t1\t2\nr0\t3\t4\n"]
+hand = [
+    [eb(0, 1), eb(6, 1), eb(0, 3, 1), eb(6, 3), eb(2, 3)],                 # addRow(name) of the wrong width, reads, good addRow, read, delete by name
+    [eb(0, 5), eb(0, 5, 1), eb(2, 5), eb(2, 1, 1)],                        # rejected then accepted row of the same name, deleted again
+    [eb(1, 5), eb(1, 5, 1), eb(6, 5), eb(3, 5), eb(3, 0, 1)],              # same on columns
+    [eb(0, 1, 1), eb(0, 1, 1), eb(2, 1), eb(2, 1)],                        # duplicate name, unknown name
+    [eb(4, 1), eb(4, 0, 1), eb(4, 7), eb(5, 1), eb(5, 0, 1), eb(6, 0)],    # name lists of the wrong length, duplicates
+    [eb(7, 0), eb(7, 0, 1), eb(7, 7), eb(0, 0), eb(0, 0, 1)],              # setRow / unnamed addRow / addColumn widths
+    [1, 1, 1, 1, eb(0, 2, 1), eb(0, 0), eb(6, 2)],                         # empty the table, then named rows
+    [0, 0, 0, 0, eb(0, 0), eb(0, 0, 1), eb(1, 0), eb(1, 1, 1), eb(6, 0)],  # column-less table
+    [54, eb(0, 2), eb(0, 7, 1), eb(2, 7), eb(2, 0, 1), eb(3, 1, 1), eb(0, 7, 1)],
+]
+for _ in range(40):
+    hand.append([x for x in (rnd.choice([eb(rnd.randrange(8), rnd.randrange(8), rnd.randrange(2)), eb(rnd.randrange(8), rnd.randrange(4), rnd.randrange(2)), rnd.randrange(64)]) for _ in range(rnd.randrange(3, 16))) if x != 0x1f])
+for i, ed in enumerate(hand):
+    for j, t in enumerate(named):
+        if i >= 9 and (i + j) % 3: continue
+        for pre in ((bytes([5]), bytes([4]), bytes([7, 0]), bytes([6, 0])) if i < 9 else (bytes([5]), bytes([7, 0]))):   # tab separated; header / no header; row names auto / column 0
+            seeds["table"].append(pre + bytes(ed) + FS + b(t))
 dists = ["Gamma(n=4,alpha=0.5)", "Gamma(n=4,alpha=0.5,beta=2)", "Constant(value=1)", "Uniform(n=3,begin=0,end=2)", "Gaussian(n=5,mu=0,sigma=1)", "Exponential(n=4,lambda=2)", "Beta(n=4,alpha=2,beta=3)",
          "Simple(values=(1,2,3),probas=(0.2,0.3,0.5))", "Invariant(dist=Gamma(n=4,alpha=1),p=0.1)", "Mixture(probas=(0.3,0.7),dist1=Gamma(n=2,alpha=1),dist2=Constant(value=2))", "TruncExponential(n=4,lambda=1,tp=3)",
          "Gamma(n=0)", "Gamma()", "Gamma", "Simple(values=(1,2),probas=(1))", "Simple(values=(),probas=())", "Mixture(probas=(1))", "Invariant(dist=Invariant(dist=Constant(value=1),p=0.5))", "Foo(n=1)", "Gamma(n=4,alpha=-1)",
@@ -99,8 +152,10 @@ for k, v in seeds.items():
             f.write(s.hex() + "\n")
             tot += 1
 dic = ["(", ")", "=", ",", ";", "[", "]", "$(", "\\\n", "\n", "\t", "#", "//", "/*", "*/", "seq(", "from=", "to=", "step=", "size=", "scale=", "log", "exp", "10^", "Gamma(", "Beta(", "Simple(", "Mixture(", "Invariant(", "Constant(", "Uniform(", "Gaussian(", "Exponential(", "TruncExponential(",
-       "n=", "alpha=", "beta=", "mu=", "sigma=", "lambda=", "tp=", "value=", "values=", "probas=", "ranges=", "dist=", "dist1=", "p=", "begin=", "end=", "-inf", "+inf", "inf", "exp(", "log(", "*", "+", "-", "/", "\x1f", "e", "E", ".", "1e-3", "0.5", "::", "param", "grid.number_of_parameters=", "grid.parameter1.values=", "grid.parameter1.name=", "V1[0;2]"]
+       "n=", "alpha=", "beta=", "mu=", "sigma=", "lambda=", "tp=", "value=", "values=", "probas=", "ranges=", "dist=", "dist1=", "p=", "begin=", "end=", "-inf", "+inf", "inf", "exp(", "log(", "*", "+", "-", "/", "\x1f", "e", "E", ".", "1e-3", "0.5", "::", "param", "grid.number_of_parameters=", "grid.parameter1.values=", "grid.parameter1.name=", "V1[0;2]",
+       "2147483647", "2147483648", "-2147483648", "-2147483649", "4294967295", "4294967296", "9223372036854775807", "9223372036854775808", "-9223372036854775808", "e0", "e+0", "E00", "e00", ".0", "e1", "214748364", "65536", "32768",
+       "\xc0", "\x81", "\x88\xc8", "\xc0\x86\xd8\xc2", "\x84\xc4\x85\xc5"]
 with open(os.path.join(D, "dict.txt"), "w") as f:
     for i, t in enumerate(dic):
-        f.write('kw%d="%s"\n' % (i, "".join("\\x%02x" % c for c in t.encode())))
+        f.write('kw%d="%s"\n' % (i, "".join("\\x%02x" % c for c in t.encode("latin-1"))))
 print("seeds:", tot)
